@@ -189,7 +189,7 @@ Lemma get_all_by_filters_rows d f :
             NoDup (map rp_uuid l) /\
             forall r, In r l <-> In r (rps d) /\ row_ok d f r = true.
 Proof.
-  intros [K1 [K2 K3]] Hnd. unfold get_all_by_filters.
+  intros [K1 [K2 K3]] Hnd. unfold get_all_by_filters, names_known. rewrite K1, K2, K3. cbn [andb negb].
   set (by_name := match f_name f with NameIs n => filter (fun r => rp_name r =? n) (rps d) | _ => rps d end).
   set (by_uuid := match f_uuid f with Some u => filter (fun r => rp_uuid r =? u) by_name | None => by_name end).
   assert (Hname : forall r, In r by_name <-> In r (rps d) /\
@@ -224,7 +224,6 @@ Proof.
   assert (N1 : NoDup (map rp_uuid l1)).
   { destruct (f_in_tree f) as [t|]; [|injection E1 as <-; assumption].
     destruct (find_rp d t); [|discriminate]. injection E1 as <-. apply NoDup_map_filter. assumption. }
-  rewrite K1. cbn [negb].
   (* required traits *)
   destruct (negb (is_nil (f_required f)) && is_nil (provider_ids_matching_required_traits d (f_required f))) eqn:E2.
   { apply Hempty. intros r Hin. apply andb_true_iff in E2. destruct E2 as [_ E2].
@@ -242,7 +241,6 @@ Proof.
     - intros [Hin H]. split; [assumption|]. exists r. repeat split; try assumption.
       apply Hname. apply Huuid. apply H1. assumption. }
   assert (N2 : NoDup (map rp_uuid l2)) by (unfold l2; destruct (is_nil (f_required f)); [|apply NoDup_map_filter]; assumption).
-  rewrite K2. cbn [negb].
   set (bad_traits := if is_nil (f_forbidden f) then [] else get_provider_ids_having_any_trait d (f_forbidden f)).
   assert (Hbt : forall u, In u bad_traits <-> has_some_trait d u (f_forbidden f) = true).
   { intro u. unfold bad_traits. destruct (f_forbidden f) eqn:Ef; cbn [is_nil]; [|apply having_any_trait_In].
@@ -349,4 +347,49 @@ Proof.
     destruct Hm as [a [Hin' Hh]]. apply (H a Hin'). unfold has_agg in Hh. apply existsb_exists in Hh.
     destruct Hh as [x [Hx Hh]]. apply andb_true_iff in Hh. destruct Hh as [_ Hh]. apply Z.eqb_eq in Hh.
     rewrite <- Hh. apply Hri. assumption.
+Qed.
+
+(* ================================================================ 400, exactly *)
+(* an unknown trait or resource class is a 400 whatever the other filters are *)
+Theorem c13_unknown_400 : forall v f d,
+  rp_filters_wf v f = true ->
+  forallb (forallb (trait_exists d)) (f_required f) = false \/
+  forallb (trait_exists d) (f_forbidden f) = false \/
+  forallb (fun x => rc_exists d (fst x)) (f_resources f) = false ->
+  list_rps_result v f d = None.
+Proof.
+  intros v f d Hwf H. unfold list_rps_result, get_all_by_filters, names_known. rewrite Hwf. cbn [negb].
+  destruct H as [ -> | [ -> | -> ] ]; rewrite ?andb_false_r; reflexivity.
+Qed.
+
+(* filters ill-formed for the microversion are a 400 *)
+Theorem c13_illformed_400 : forall v f d, rp_filters_wf v f = false -> list_rps_result v f d = None.
+Proof. intros v f d H. unfold list_rps_result. rewrite H. reflexivity. Qed.
+
+Lemma get_all_by_filters_some d f : filters_known d f -> exists l, get_all_by_filters d f = Some l.
+Proof.
+  intros [K1 [K2 K3]]. unfold get_all_by_filters, names_known. rewrite K1, K2, K3. cbn [andb negb].
+  destruct (match f_in_tree f with None => _ | Some t => _ end); [|eauto].
+  destruct (_ && _); [eauto|]. destruct (_ && _); [eauto|].
+  rewrite (resources_filter_known d (f_resources f) _ K3). eauto.
+Qed.
+
+(* well-formed filters naming only existing traits and classes are answered with a list (200) *)
+Theorem c13_known_200 : forall v f d,
+  filters_known d f -> rp_filters_wf v f = true -> exists l, list_rps_result v f d = Some l.
+Proof.
+  intros v f d Hk Hwf. unfold list_rps_result. rewrite Hwf. cbn [negb]. apply get_all_by_filters_some. assumption.
+Qed.
+
+(* 400 iff ill-formed for the version or an unknown name *)
+Theorem c13_400_iff : forall v f d,
+  list_rps_result v f d = None <-> rp_filters_wf v f = false \/ names_known d f = false.
+Proof.
+  intros v f d. split.
+  - intro H. destruct (rp_filters_wf v f) eqn:Hwf; [|left; reflexivity]. right.
+    destruct (names_known d f) eqn:Hn; [|reflexivity]. exfalso. unfold names_known in Hn.
+    rewrite !andb_true_iff in Hn. destruct Hn as [[K1 K2] K3].
+    destruct (c13_known_200 v f d (conj K1 (conj K2 K3)) Hwf) as [l Hl]. congruence.
+  - intros [H|H]; [apply c13_illformed_400; assumption|].
+    unfold list_rps_result, get_all_by_filters. rewrite H. destruct (negb (rp_filters_wf v f)); reflexivity.
 Qed.
